@@ -84,7 +84,7 @@ def run(ctx):
                 t = ws["targets"].get(l)
                 if t is None or not om["ok"]:
                     continue
-                for op in t["outs"]:
+                for op in H.all_outs(t):
                     p = H.out_path(t, op)
                     if count:
                         cnt["outputs_compared"] += 1
